@@ -213,3 +213,7 @@ impl Drop for Scope<'_> {
         self.drop_all()
     }
 }
+
+#[cfg(kani)]
+#[path = "/verif/harness/may/scoped.rs"]
+mod verif_kani;
